@@ -5,6 +5,9 @@ import tables
 import decoder_rules as DR
 
 
+import ownership as _Osd
+
+
 def check_no_silent_drop(chk, rule, prog, eff):
     """every path through every builder callback wired in cbor_load (and _cbor_builder_append) ends in a hand-off of the
     item or raises an error flag: a decoded head never vanishes (else the enclosing container would take what FOLLOWS)"""
@@ -21,7 +24,7 @@ def check_no_silent_drop(chk, rule, prog, eff):
     for bn in builders + ["_cbor_builder_append"]:
         bf = prog.fn(bn)
         bwhere = "%s:%d" % (bf.file, bf.line)
-        for k, pa in enumerate(P.Executor(prog, eff).run(bn)):
+        for k, pa in enumerate(P.Executor(prog, eff, inline=_Osd.static_callees(prog, eff, bn)).run(bn)):
             cf = se = False
             handoff = []
             for e in pa.events:
@@ -103,7 +106,8 @@ def run(ctx, chk):
     want = {"empty": EC["CBOR_ERR_NODATA"], "exhausted": EC["CBOR_ERR_NOTENOUGHDATA"], "nedata": EC["CBOR_ERR_NOTENOUGHDATA"],
             "error": EC["CBOR_ERR_MALFORMATED"], "creation_failed": EC["CBOR_ERR_MEMERROR"], "syntax_error": EC["CBOR_ERR_SYNTAXERROR"]}
 
-    ps = P.Executor(prog, eff).run("cbor_load")
+    import ownership as _O5
+    ps = P.Executor(prog, eff, inline=_O5.static_callees(prog, eff, "cbor_load")).run("cbor_load")
     chk.floor("C05.fields", "paths of cbor_load", len(ps), 20)
     statuses_seen = set()
     seen_causes = set()
